@@ -249,7 +249,7 @@ def install(MachineCls):
 
 
 # ------------------------------------------------------------------ panics, fmt, misc
-@model("panicking::panic_fmt", "panic_fmt", "panicking::panic", "begin_panic", "panicking::panic_explicit", "panic_display",
+@model("panic", "panicking::panic_fmt", "panic_fmt", "panicking::panic", "begin_panic", "panicking::panic_explicit", "panic_display",
        "panicking::panic_display", "option::unwrap_failed", "unwrap_failed", "result::unwrap_failed", "expect_failed",
        "panic_cold_explicit", "panic_cold_display", "assert_failed", "panicking::assert_failed", "panic_nounwind", "panic_bounds_check")
 def _panic(m, c):
